@@ -80,11 +80,16 @@ def main(tier):
         "This check does NOT decide C06 as a whole: the Lua whitelist (_lua_reset_env, new_require, retained modules) is "
         "Lua code that no tool here verifies and that cannot even be executed offline. What is decided is the Python "
         "side of the boundary. P: filter_attribute_access returns the name iff it is a str not starting with '_' and "
-        "the object is not a functools.partial helper, otherwise raises AttributeError (z3, both parameter kinds). "
+        "the object is neither a functools.partial helper nor an exception object, otherwise raises AttributeError "
+        "(z3, both parameter kinds). lua_loader: on every path to `file_path = LUA_DIR / prefix / path` the relative "
+        "path is not absolute, has no '..' segment and ends in '.lua' (z3/cvc5 string theory over the real cleaning "
+        "chain; the four re.sub calls enter by assumed contracts -- no '//' / no '..' / no leading slash / nothing "
+        "added -- validated against CPython's re by enumeration in the bounded tier; because those results are "
+        "over-approximated, a counter-model is a candidate that only the replay can turn into a violation). "
         "Syntactic obligations: the LuaRuntime is constructed with register_eval=False and that filter; every value "
         "handed to Lua is a module-level function or a partial of one over the context / a context stack; lua_loader "
-        "opens exactly LUA_DIR / prefix / path. NOT proved: that the sanitised `path` is a relative path without '..' "
-        "(regex chain, bounded tier only). B: path soups against a planted outside file; filter on a bare LuaRuntime.")
+        "opens exactly LUA_DIR / prefix / path. B: path soups against a planted outside file; filter on the real "
+        "runtime; every non-network helper under pcall with hostile arguments, error objects walked through the filter.")
     rep.assumptions += ["everything on the Lua side of the sandbox", "lupa honours attribute_filter and register_eval",
                         "pathlib's '/' semantics (absolute right operand discards the left)"]
     return rep.finish(replayer=replay, expected_min_functions=len(cs))
@@ -92,7 +97,10 @@ def main(tier):
 
 def replay(ob):
     b = check.run_repo_py("bounded/c06_run.py", {"tier": "quick", "seed": 0}, timeout=600)
-    return {"reproduced": bool(b.get("failures")), "witness": b.get("failures", [])[:2], "how": "bounded/c06_run.py"}
+    fails = b.get("failures", [])
+    if "lua_loader" in ob.get("ident", ""):
+        fails = [f for f in fails if "lua_loader" in f.get("ident", "")]
+    return {"reproduced": bool(fails), "witness": fails[:2], "how": "bounded/c06_run.py"}
 
 
 if __name__ == "__main__":
